@@ -70,9 +70,20 @@ End == /\ l <= Len(Trace) /\ Trace[l].ev = "end"
              ELSE TRUE
        /\ l' = l + 1 /\ UNCHANGED <<cfg, st, skip, done>>
 
+\* after a killed run: the same operation run again to completion on the surviving directory (what the
+\* next indexing job does).  A recovery that reports success has installed the complete new index.
+Recover == /\ l <= Len(Trace) /\ Trace[l].ev = "recover"
+           /\ LET e == Trace[l]
+                  obs == ToSet(e.view)
+                  newN == WithN(New(cfg))
+              IN IF e.reported = "ok" /\ (obs # newN \/ e.bad # 0)
+                 THEN Reject("recover:success-not-installed", [new |-> newN])
+                 ELSE TRUE
+           /\ l' = l + 1 /\ UNCHANGED <<cfg, st, skip, done>>
+
 Done == l = Len(Trace) + 1 /\ ~done /\ done' = TRUE /\ PrintT(<<"ACCEPTED", l - 1>>)
         /\ UNCHANGED <<l, cfg, st, skip>>
 
-Next == Reset \/ Mut \/ End \/ Done
+Next == Reset \/ Mut \/ End \/ Recover \/ Done
 Spec == Init /\ [][Next]_vars
 =============================================================================
